@@ -178,13 +178,39 @@ def in_range(case):
     return 0 <= t < 1 or case["strategy"] == "unanimous"
 
 
+def steps_of(case):
+    """A case is a history on ONE instance.  Without "steps" it is the single vote scripted in "voters"."""
+    if "steps" in case:
+        return case["steps"]
+    return [{"op": "vote", "script": [{"act": v["act"], "c": v["c"]} for v in case["voters"]]}]
+
+
+def agent_name(i):
+    return f"Bacterium_{i}"
+
+
+def grid30(fr):
+    return math.floor(Fraction(fr) * 2 ** 30 + Fraction(1, 2))
+
+
+def _dyadic(x):
+    d = Fraction(x).denominator
+    return d <= 1024 and d & (d - 1) == 0
+
+
 class C06(Check):
     PID = "C06"
     HEADER = "From Verif Require Import C06.Model."
     RUN = "run_case"
     N_QUICK = 2600
     N_THOROUGH = 30000
-    RULE = ("electorates of 0..7 stub voters; per voter action in {PERMIT,EXECUTE,BLOCK,DEFER,ABSTAIN,FAILURE,UNKNOWN}, "
+    RULE = ("a case is a HISTORY on one QuorumSensing/EmergencyQuorum instance: 1-4 run_vote calls with add_agent, remove_agent, "
+            "set_agent_weight, set_strategy, min_voters assignment, update_reliability, update_all_reliability in between (single-vote "
+            "cases are length-1 histories); observations per vote plus the final colony state (votes_cast, correct_votes, reliability, "
+            "weight); the monitor judges every vote against the colony/configuration read from the instance just before that vote; "
+            "exhaustive resize histories: vote, grow/shrink the colony (1..4 -> 1..5 quick, 1..5 -> 1..7 thorough), vote again with every "
+            "permit count, for THRESHOLD (default, 0.25, 0.5, 2), EmergencyQuorum (0.3, 0.5), MAJORITY, UNANIMOUS. Ballots: "
+            "electorates of 0..7 stub voters; per voter action in {PERMIT,EXECUTE,BLOCK,DEFER,ABSTAIN,FAILURE,UNKNOWN}, "
             "raising agent or unusable confidence; weight x reliability x confidence from the dyadic grid {0,1/4,1/2,3/4,1,2} "
             "(confidence also absent) or two-decimal floats incl. 0.3; all seven strategies and EmergencyQuorum; thresholds: "
             "default, 0, dyadic fractions, two-decimal fractions, counts (1..n+1, 2.5), 0.3; min_voters 0..n; constructed "
@@ -198,7 +224,9 @@ class C06(Check):
                   "EmergencyQuorum: no permit vote => never PERMIT; unopposed/unanimous permit with positive effective support => PERMIT; "
                   "any block defeats UNANIMOUS; reached <=> the per-strategy criterion (stated independently, multiplicatively); "
                   "block->permit and raising a permit voter's weight/confidence never lose PERMIT; counts exact; failed voters are "
-                  "zero-confidence abstentions and passive votes never influence the verdict. The model is tied to the code by evaluating it "
+                  "zero-confidence abstentions and passive votes never influence the verdict; and over all HISTORIES of one instance (votes interleaved "
+                  "with every public mutator, reliability learning included): each vote's outcome is the aggregation of the current colony's ballot "
+                  "under the current configuration, so every per-ballot theorem holds at every vote. The model is tied to the code by evaluating it "
                   "in Coq on every generated ballot the implementation ran.")
     LEVEL_NOTE = ("Trusts: Coq kernel+VM; the correspondence harness; exact-rational idealisation of binary64 arithmetic (cases within 1e-9 "
                   "of a decision boundary are skipped unless binary64 is exact there). Axioms: none (Print Assumptions: closed). "
@@ -206,7 +234,7 @@ class C06(Check):
                   "electorate with positive support can be BLOCK (one voter, weight 1, confidence 1, threshold 0.95: posterior 0.9); "
                   "c06_unanimous_PERMIT is stated for BAYESIAN thresholds <= 1/2, the witness is c06_unanimous_bayesian_high_threshold_refuted, "
                   "the monitor demands unanimous => PERMIT at every threshold in [0,1) and classifies exactly this failure under that signature.")
-    TECHNIQUE = "Coq proofs over Q (induction over the ballot, lra/nra) + vm_compute correspondence against QuorumSensing.run_vote with stub voters + metamorphic monitor"
+    TECHNIQUE = "Coq proofs over Q (induction over the ballot and over the operation history, lra) + vm_compute correspondence against histories of run_vote/mutators on one real QuorumSensing instance with stub voters + per-vote metamorphic monitor"
     TRUSTED = ["float-vs-rational idealisation: the model computes ratios, weight*confidence sums and Bayesian products exactly over Q "
                "(Bayesian constant 0.4 as 2/5; 0.5, 0.666, 0.3 as the exact doubles); the implementation uses binary64. Cases whose exact "
                "decision margin (|ratio - threshold|, |posterior - threshold|, Bayesian clamp argument, distance of f*n from an integer) is "
@@ -216,7 +244,12 @@ class C06(Check):
                "the posterior value itself is not compared, only decision and counts",
                "voter agents are stubs returning a scripted ActionProtein or raising; the BioAgent pipeline itself is only smoke-tested "
                "(ATP-starved real agents abstain)",
-               "NaN/inf weights, confidences and thresholds are outside the modelled domain"]
+               "NaN/inf weights, confidences and thresholds are outside the modelled domain",
+               "instance state modelled: strategy, custom_threshold, min_voters, enable_reliability_tracking, colony (name, weight, "
+               "reliability_score, votes_cast, correct_votes), votes of the last recorded result; agent names are Bacterium_<id>; learned "
+               "reliabilities correct/cast are exact rationals in the model and binary64 quotients in the code, so vote weights and "
+               "reliabilities are observed on a 2^-30 grid (confidences stay exact) and the 1e-9 margin rule covers the difference",
+               "statistics counters, on_quorum_* callbacks, timeout_seconds and the 1000-entry history cap are not modelled (no verdict reads them)"]
     ASSUMPTIONS = ["weights, reliabilities, confidences are finite and >= 0; ratio thresholds in [0,1); count thresholds >= 0 "
                    "(0 = default, (0,1) = share of the colony, >= 1 = count)",
                    "unanimous => PERMIT is demanded for THRESHOLD only when the needed count does not exceed the permit votes; for BAYESIAN it is "
@@ -298,20 +331,105 @@ class C06(Check):
         return {"strategy": "threshold" if em else strat, "thr": thr, "min_voters": 1 if em else rng.choice([0, -1, 1, 1, 2]),
                 "emergency": em, "voters": vs, "exact": True}
 
+    def _history_case(self, rng):
+        """1-4 votes on one instance with public mutators in between."""
+        exact = rng.random() < 0.7
+        base = self._grid_case(rng, exact)
+        if rng.random() < 0.45:                               # the strategies that read the colony size
+            base["strategy"] = "threshold"
+            base["thr"] = self._thr_for(rng, "threshold", len(base["voters"]), exact)
+            base["emergency"] = rng.random() < 0.4
+            if base["emergency"]:
+                base["min_voters"] = 1
+                if rng.random() < 0.5:
+                    base["thr"] = None
+        ids = list(range(len(base["voters"])))
+        nxt = len(ids)
+        base["voters"] = [{"w": v["w"], "rel": v["rel"]} for v in base["voters"]]
+        base["tracking"] = rng.random() < 0.9
+        steps = []
+        acts = ["PERMIT", "PERMIT", "PERMIT", "EXECUTE", "BLOCK", "BLOCK", "BLOCK", "DEFER", "ABSTAIN", "RAISE", "BADCONF"]
+
+        def script():
+            style = rng.random()
+            out = []
+            for _ in ids:
+                a = "PERMIT" if style < 0.15 else ("BLOCK" if style < 0.25 else rng.choice(acts))
+                c = rng.choice(GRID[:5] + [1.0, 1.0, None]) if exact else rng.choice([round(rng.uniform(0, 1), 2), 1.0, 0.3, None])
+                out.append({"act": a, "c": c})
+            return out
+
+        nvotes = rng.choice([1, 2, 2, 2, 3, 3, 4])
+        for k in range(nvotes):
+            steps.append({"op": "vote", "script": script()})
+            if k == nvotes - 1:
+                break
+            for _ in range(rng.choice([0, 1, 1, 2, 3, 4])):
+                r = rng.random()
+                if r < 0.3 and len(ids) < 8:
+                    i = nxt if rng.random() < 0.85 or not ids else rng.choice(ids)    # sometimes a duplicate name
+                    nxt += 1
+                    ids.append(i)
+                    steps.append({"op": "add", "id": i, "w": rng.choice(GRID + [1.0, 1.0]) if exact else round(rng.uniform(0, 3), 2)})
+                elif r < 0.55 and ids:
+                    i = rng.choice(ids + [99])
+                    if i in ids:
+                        ids.remove(i)                        # remove_agent drops the first profile of that name
+                    steps.append({"op": "remove", "id": i})
+                elif r < 0.65 and ids:
+                    steps.append({"op": "weight", "id": rng.choice(ids + [99]),
+                                  "w": rng.choice(GRID) if exact else round(rng.uniform(0, 3), 2)})
+                elif r < 0.8:
+                    st = rng.choice(STRATS)
+                    steps.append({"op": "strategy", "strategy": st, "thr": self._thr_for(rng, st, len(ids), exact)})
+                elif r < 0.85:
+                    steps.append({"op": "min_voters", "k": rng.choice([0, 1, 1, 2, 3])})
+                elif r < 0.92 and ids:
+                    steps.append({"op": "rel", "id": rng.choice(ids + [99]), "ok": rng.random() < 0.6})
+                else:
+                    steps.append({"op": "rel_all", "decision": rng.choice(["permit", "permit", "block", "abstain"])})
+        base["steps"] = steps
+        return base
+
+    def _resize_histories(self):
+        """Vote, change the colony size with add_agent/remove_agent, vote again: every configuration that reads the
+        colony size x every size change among 1..4 -> 1..5 (quick) / 1..5 -> 1..7 (thorough) x every permit count."""
+        out = []
+        cfgs = [("threshold", None, True), ("threshold", 0.5, True), ("threshold", None, False), ("threshold", 0.5, False),
+                ("threshold", 0.25, False), ("threshold", 2, False), ("majority", None, False), ("unanimous", None, False)]
+        top0, top1 = (4, 5) if self.tier == "quick" else (5, 7)
+        for (strat, thr, em) in cfgs:
+            for n0 in range(1, top0 + 1):
+                for n1 in range(1, top1 + 1):
+                    if n1 == n0:
+                        continue
+                    resize = ([{"op": "add", "id": 10 + k, "w": 1.0} for k in range(n1 - n0)] if n1 > n0
+                              else [{"op": "remove", "id": k} for k in range(n0 - n1)])
+                    for first in ("PERMIT", "BLOCK"):
+                        for np_ in range(n1 + 1):
+                            second = ["PERMIT"] * np_ + ["BLOCK"] * (n1 - np_)
+                            out.append({"strategy": strat, "thr": thr, "min_voters": 1, "emergency": em, "tracking": True,
+                                        "voters": [{"w": 1.0, "rel": 1.0} for _ in range(n0)], "exact": True,
+                                        "steps": [{"op": "vote", "script": [{"act": first, "c": 1.0}] * n0}] + resize +
+                                                 [{"op": "vote", "script": [{"act": a, "c": 1.0} for a in second]}]})
+        return out
+
     def gen_cases(self, rng, n):
         out = []
         skipped = 0
         while len(out) < n:
             k = rng.random()
-            if k < 0.42:
+            if k < 0.28:
                 c = self._grid_case(rng, True)
-            elif k < 0.60:
+            elif k < 0.42:
                 c = self._tie_case(rng)
-            elif k < 0.90:
+            elif k < 0.62:
                 c = self._grid_case(rng, False)
-            else:
+            elif k < 0.70:
                 c = self._malformed_case(rng)
-            if skip_for_rounding(c):
+            else:
+                c = self._history_case(rng)
+            if self._near(c):
                 skipped += 1
                 continue
             out.append(c)
@@ -347,6 +465,7 @@ class C06(Check):
                             out.append(c)
                     out.append({"strategy": "threshold", "thr": None, "min_voters": 1, "emergency": True,
                                 "voters": [voter(a) for a in combo], "exact": True})
+        out += [c for c in self._resize_histories() if not self._near(c)]
         return out
 
     def known_witnesses(self):
@@ -375,67 +494,156 @@ class C06(Check):
         self.extra_cov["starved_real_agent_runs"] = len(list(Q.VotingStrategy))
 
     # ------------------------------------------------------------------ implementation
-    def _run(self, case):
-        """Drive the real QuorumSensing / EmergencyQuorum -> dict (or {'raised': cls})."""
+    def _drive(self, case):
+        """Run the whole history on ONE real QuorumSensing / EmergencyQuorum instance.
+        -> {"votes": [(snapshot, result)], "final": [...]}.  The snapshot is the single-vote case read from
+        the instance's public state immediately before that run_vote: strategy, custom_threshold, min_voters,
+        and for every CURRENT colony member its weight, reliability_score and what its agent is scripted to do."""
         from operon_ai.topology import quorum as Q
         from operon_ai.state.metabolism import ATP_Store
         vs = case["voters"]
         budget = ATP_Store(budget=1000, silent=True)
+        kw = {} if case.get("tracking", True) else {"enable_reliability_tracking": False}
         if case.get("emergency"):
-            kw = {} if case["thr"] is None else {"emergency_threshold": case["thr"]}
+            if case["thr"] is not None:
+                kw["emergency_threshold"] = case["thr"]
             q = Q.EmergencyQuorum(len(vs), budget, silent=True, **kw)
         else:
             q = Q.QuorumSensing(len(vs), budget, strategy=Q.VotingStrategy(case["strategy"]),
-                                threshold=case["thr"], min_voters=case["min_voters"], silent=True)
+                                threshold=case["thr"], min_voters=case["min_voters"], silent=True, **kw)
         for p, v in zip(q.colony, vs):
-            p.agent = _Stub(p.agent.name, v["act"], v["c"])
+            p.agent = _Stub(p.agent.name, "RAISE", None)
             p.weight = v["w"]
             p.reliability_score = v["rel"]
-        try:
-            r = q.run_vote("proposal")          # a single pass over the stub voters: cannot hang, no watchdog thread
-        except ZeroDivisionError:
-            return {"raised": "ZeroDivisionError"}
-        return {"reached": bool(r.reached), "decision": r.decision.value, "total": r.total_votes,
-                "permit": r.permit_votes, "block": r.block_votes, "abstain": r.abstain_votes,
-                "votes": [(v.vote_type.value, Fraction(v.weight), Fraction(v.confidence)) for v in r.votes],
-                "strategy": r.strategy.value}
+        votes = []
+        for st in steps_of(case):
+            op = st["op"]
+            if op == "vote":
+                script = st["script"]
+                snap_voters = []
+                for k, p in enumerate(q.colony):
+                    b = script[k] if k < len(script) else {"act": "RAISE", "c": None}   # beyond the script: the agent raises
+                    p.agent.act, p.agent.conf = b["act"], b["c"]
+                    snap_voters.append({"act": b["act"], "c": b["c"], "w": p.weight, "rel": p.reliability_score})
+                snap = {"strategy": q.strategy.value, "thr": q.custom_threshold, "min_voters": q.min_voters,
+                        "emergency": False, "voters": snap_voters,
+                        "exact": bool(case.get("exact")) and all(_dyadic(x["rel"]) for x in snap_voters)}
+                try:
+                    r = q.run_vote("proposal")      # a single pass over the stub voters: cannot hang, no watchdog thread
+                    t = {"reached": bool(r.reached), "decision": r.decision.value, "total": r.total_votes,
+                         "permit": r.permit_votes, "block": r.block_votes, "abstain": r.abstain_votes,
+                         "votes": [(v.vote_type.value, Fraction(v.weight), Fraction(v.confidence)) for v in r.votes],
+                         "strategy": r.strategy.value}
+                except ZeroDivisionError:
+                    t = {"raised": "ZeroDivisionError"}
+                votes.append((snap, t))
+            elif op == "add":
+                prof = q.add_agent(agent_name(st["id"]), st["w"])
+                prof.agent = _Stub(prof.agent.name, "RAISE", None)
+            elif op == "remove":
+                q.remove_agent(agent_name(st["id"]))
+            elif op == "weight":
+                q.set_agent_weight(agent_name(st["id"]), st["w"])
+            elif op == "strategy":
+                q.set_strategy(Q.VotingStrategy(st["strategy"]), st["thr"])
+            elif op == "min_voters":
+                q.min_voters = st["k"]
+            elif op == "rel":
+                q.update_reliability(agent_name(st["id"]), st["ok"])
+            elif op == "rel_all":
+                q.update_all_reliability(Q.VoteType(st["decision"]))
+            else:
+                raise ValueError(op)
+        final = [[int(p.agent.name.split("_")[1]), p.votes_cast, p.correct_votes,
+                  grid30(p.reliability_score), grid30(p.weight)] for p in q.colony]
+        return {"votes": votes, "final": final}
+
+    def _run(self, case):
+        """Result of the (first) vote of a case."""
+        return self._drive(case)["votes"][0][1]
+
+    def _near(self, case):
+        """Some vote of the history is within rounding distance of its decision boundary."""
+        if "steps" not in case:
+            return skip_for_rounding(case)
+        return any(skip_for_rounding(snap) for snap, _t in self._drive(case)["votes"])
 
     def run_impl(self, case):
         if case.get("real_agents_starved"):
             return [[0]], {"skip": True}
-        t = self._run(case)
-        if "raised" in t:
-            return [[-1]], t
-        obs = [[1, int(t["reached"]), VT[t["decision"]], t["total"], t["permit"], t["block"], t["abstain"], len(t["votes"])]]
-        for (k, w, c) in t["votes"]:
-            obs.append([VT[k], w.numerator, w.denominator, c.numerator, c.denominator])
-        return obs, t
+        d = self._drive(case)
+        obs = []
+        for _snap, t in d["votes"]:
+            if "raised" in t:
+                obs.append([-1])
+                continue
+            obs.append([1, int(t["reached"]), VT[t["decision"]], t["total"], t["permit"], t["block"], t["abstain"], len(t["votes"])])
+            for (k, w, c) in t["votes"]:
+                obs.append([VT[k], grid30(w), c.numerator, c.denominator])
+        obs.append([-2, len(d["final"])])
+        obs += d["final"]
+        return obs, d
 
     # ------------------------------------------------------------------ model input
+    @staticmethod
+    def _coq_beh(b):
+        if b["act"] in FAILED:
+            return "Raised"
+        c = "None" if b["c"] is None else f"(Some {cq(Fraction(b['c']))})"
+        return f"(Acted {COQ_ACT[b['act']]} {c})"
+
     def coq_case(self, case):
         if case.get("real_agents_starved"):
-            return "(mkConfig Majority None 1, [])"
+            return "(mkConfig Majority None 1, true, [], [])"
         if case.get("emergency"):
             cfg = f"emergency_cfg {cq(Fraction(0.3 if case['thr'] is None else case['thr']))}"
         else:
             thr = "None" if case["thr"] is None else f"(Some {cq(Fraction(case['thr']))})"
             cfg = f"mkConfig {COQ_STRAT[case['strategy']]} {thr} {cz(case['min_voters'])}"
-        vs = []
-        for v in case["voters"]:
-            if v["act"] in FAILED:
-                beh = "Raised"
-            else:
-                c = "None" if v["c"] is None else f"(Some {cq(Fraction(v['c']))})"
-                beh = f"(Acted {COQ_ACT[v['act']]} {c})"
-            vs.append(f"mkVoter {beh} {cq(Fraction(v['w']))} {cq(Fraction(v['rel']))}")
-        return ctuple(cfg, clist(vs))
+        ws = clist([ctuple(cq(Fraction(v["w"])), cq(Fraction(v["rel"]))) for v in case["voters"]])
+        ops = []
+        for st in steps_of(case):
+            op = st["op"]
+            if op == "vote":
+                ops.append(f"OVote (script_of {clist([self._coq_beh(b) for b in st['script']])})")
+            elif op == "add":
+                ops.append(f"OAdd {cz(st['id'])} {cq(Fraction(st['w']))}")
+            elif op == "remove":
+                ops.append(f"ORemove {cz(st['id'])}")
+            elif op == "weight":
+                ops.append(f"OSetWeight {cz(st['id'])} {cq(Fraction(st['w']))}")
+            elif op == "strategy":
+                thr = "None" if st["thr"] is None else f"(Some {cq(Fraction(st['thr']))})"
+                ops.append(f"OSetStrategy {COQ_STRAT[st['strategy']]} {thr}")
+            elif op == "min_voters":
+                ops.append(f"OSetMinVoters {cz(st['k'])}")
+            elif op == "rel":
+                ops.append(f"OUpdateRel {cz(st['id'])} {'true' if st['ok'] else 'false'}")
+            elif op == "rel_all":
+                ops.append(f"OUpdateAll {st['decision'].capitalize()}")
+        return ctuple(cfg, "true" if case.get("tracking", True) else "false", ws, clist(ops))
 
     # ------------------------------------------------------------------ the property, on the implementation
     def monitor(self, case, obs, trace, meta=True):
+        """Every vote of the history must satisfy the property for the colony and configuration the
+        instance has AT THAT VOTE (read from its public state just before run_vote)."""
         if trace.get("skip"):
             return None
         if trace.get("harness_error") or trace.get("hang"):
             return Violation("C06/raises", f"run_vote did not return normally: {trace}")
+        nv = len(trace["votes"])
+        for k, (snap, t) in enumerate(trace["votes"]):
+            v = self.monitor_vote(snap, t, meta)
+            if v is not None:
+                if nv > 1 or "steps" in case:
+                    cfg = f"{snap['strategy']}, threshold {snap['thr']}, min_voters {snap['min_voters']}, {len(snap['voters'])} voters"
+                    v.what = f"vote {k + 1} of {nv} in the history (instance then: {cfg}): " + v.what
+                v.case = case
+                return v
+        return None
+
+    def monitor_vote(self, case, trace, meta=True):
+        """The property on one vote; `case` is the single-vote snapshot of the instance."""
         bl = ballot(case)
         n = len(bl)
         kinds = [b[0] for b in bl]
@@ -515,7 +723,7 @@ class C06(Check):
                     self.extra_cov["metamorphic_reruns"] = self.extra_cov.get("metamorphic_reruns", 0) + 1
                     if t2.get("decision") != "permit":
                         return Violation(sig, f"{strat}: PERMIT is lost ({t2.get('decision', t2)}) when voter {i} changes from "
-                                         f"{v} to {v2}", case=case)
+                                         f"{v} to {v2}")
                 if tried >= 6:
                     break
         return None
@@ -523,24 +731,46 @@ class C06(Check):
     def nontrivial(self, case, obs, trace):
         if case.get("real_agents_starved"):
             return True
-        kinds = {KIND[v["act"]] for v in case["voters"]}
-        return len(kinds) >= 2 or any(v["act"] in FAILED for v in case["voters"]) or criterion(case)[1] == 0
+        if len(steps_of(case)) > 1:
+            return True
+        if not trace.get("votes"):
+            return False
+        snap = trace["votes"][0][0]
+        kinds = {KIND[v["act"]] for v in snap["voters"]}
+        return len(kinds) >= 2 or any(v["act"] in FAILED for v in snap["voters"]) or criterion(snap)[1] == 0
 
     def classify(self, case, obs, trace):
         if case.get("real_agents_starved"):
             return ["real-agents"]
-        ks = ["strategy=" + ("emergency" if case.get("emergency") else case["strategy"]), f"voters={len(case['voters'])}"]
-        if "raised" in trace:
-            ks.append("outcome=raise")
-        elif "decision" in trace:
-            ks.append("outcome=" + (trace["decision"] if trace["decision"] != "abstain" else "gate"))
-        verdict, margin, _e = criterion(case)
-        if margin == 0:
-            ks.append("tie")
-        ks.append("thr=" + ("default" if not case["thr"] else ("fraction" if 0 < case["thr"] < 1 else "count-or-out-of-range")))
-        ks.append("in-range" if in_range(case) else "malformed")
-        if any(v["act"] in FAILED for v in case["voters"]):
-            ks.append("has-failed-voter")
+        ks = [f"initial-voters={len(case['voters'])}"]
+        if case.get("emergency"):
+            ks.append("class=EmergencyQuorum")
+        steps = steps_of(case)
+        nvotes = sum(1 for st in steps if st["op"] == "vote")
+        ks.append(f"history-votes={nvotes}")
+        for st in steps:
+            if st["op"] != "vote":
+                ks.append("op=" + st["op"])
+        sizes = []
+        for snap, t in (trace.get("votes") or []):
+            ks.append("strategy=" + snap["strategy"])
+            ks.append(f"voters={len(snap['voters'])}")
+            sizes.append(len(snap["voters"]))
+            if "raised" in t:
+                ks.append("outcome=raise")
+            else:
+                ks.append("outcome=" + (t["decision"] if t["decision"] != "abstain" else "gate"))
+            _verdict, margin, _e = criterion(snap)
+            if margin == 0:
+                ks.append("tie")
+            ks.append("thr=" + ("default" if not snap["thr"] else ("fraction" if 0 < snap["thr"] < 1 else "count-or-out-of-range")))
+            ks.append("in-range" if in_range(snap) else "malformed")
+            if any(v["act"] in FAILED for v in snap["voters"]):
+                ks.append("has-failed-voter")
+            if not all(_dyadic(v["rel"]) for v in snap["voters"]):
+                ks.append("learned-non-dyadic-reliability")
+        if len(set(sizes)) > 1:
+            ks.append("colony-size-changes-between-votes")
         if not case.get("exact"):
             ks.append("non-dyadic")
         return ks
@@ -548,6 +778,9 @@ class C06(Check):
     def shrink(self, case, pred):
         if case.get("real_agents_starved"):
             return case
+        if "steps" in case:
+            steps = common.shrink_list(case["steps"], lambda xs: any(x["op"] == "vote" for x in xs) and pred({**case, "steps": xs}))
+            return {**case, "steps": steps}
         vs = common.shrink_list(case["voters"], lambda xs: pred({**case, "voters": xs}))
         return {**case, "voters": vs}
 
